@@ -40,6 +40,57 @@ impl<'a, V> BRange<'a, V> {
             Some(k) => r matches Some((kk, vv)) && *kk == k && *vv == old(self).map()[k] && k < old(self).bound() && old(self).map().contains_key(k),
             None => r is None }
     { unimplemented!() }
+    // ---- the rest of the iterator surface a plausible edit may use on the version range (ascending key order) ----
+    #[verifier::external_body]
+    pub fn next(&mut self) -> (r: Option<(&'a TxId, &'a V)>)
+        ensures match earliest_in(old(self).map(), old(self).bound()) {
+            Some(k) => r matches Some((kk, vv)) && *kk == k && *vv == old(self).map()[k] && k < old(self).bound() && old(self).map().contains_key(k),
+            None => r is None }
+    { unimplemented!() }
+    #[verifier::external_body]
+    pub fn last(self) -> (r: Option<(&'a TxId, &'a V)>)
+        ensures match latest_before(self.map(), self.bound()) {
+            Some(k) => r matches Some((kk, vv)) && *kk == k && *vv == self.map()[k] && k < self.bound() && self.map().contains_key(k),
+            None => r is None }
+    { unimplemented!() }
+    /// the FIRST (smallest key) version below the bound that satisfies the predicate
+    #[verifier::external_body]
+    pub fn find<P: FnMut(&(&'a TxId, &'a V)) -> bool>(&mut self, p: P) -> (r: Option<(&'a TxId, &'a V)>)
+        requires forall|x: &(&'a TxId, &'a V)| p.requires((x,)),
+        ensures match r {
+            Some((kk, vv)) => old(self).map().contains_key(*kk) && *kk < old(self).bound() && *vv == old(self).map()[*kk] && p.ensures((&(kk, vv),), true)
+                && forall|j: TxId| old(self).map().contains_key(j) && j < *kk ==> p.ensures((&(&j, &old(self).map()[j]),), false),
+            None => forall|j: TxId| old(self).map().contains_key(j) && j < old(self).bound() ==> p.ensures((&(&j, &old(self).map()[j]),), false) }
+    { unimplemented!() }
+    #[verifier::external_body]
+    pub fn rev(self) -> (r: BRangeRev<'a, V>) ensures r.map() == self.map(), r.bound() == self.bound() { unimplemented!() }
+}
+/// `range(..k).rev()`: descending key order
+#[verifier::external_body] #[verifier::reject_recursive_types(V)]
+pub struct BRangeRev<'a, V> { p: core::marker::PhantomData<&'a V> }
+impl<'a, V> BRangeRev<'a, V> {
+    pub uninterp spec fn map(&self) -> Map<TxId, V>;
+    pub uninterp spec fn bound(&self) -> int;
+    #[verifier::external_body]
+    pub fn next(&mut self) -> (r: Option<(&'a TxId, &'a V)>)
+        ensures match latest_before(old(self).map(), old(self).bound()) {
+            Some(k) => r matches Some((kk, vv)) && *kk == k && *vv == old(self).map()[k] && k < old(self).bound() && old(self).map().contains_key(k),
+            None => r is None }
+    { unimplemented!() }
+    /// the LAST (greatest key) version below the bound that satisfies the predicate
+    #[verifier::external_body]
+    pub fn find<P: FnMut(&(&'a TxId, &'a V)) -> bool>(&mut self, p: P) -> (r: Option<(&'a TxId, &'a V)>)
+        requires forall|x: &(&'a TxId, &'a V)| p.requires((x,)),
+        ensures match r {
+            Some((kk, vv)) => old(self).map().contains_key(*kk) && *kk < old(self).bound() && *vv == old(self).map()[*kk] && p.ensures((&(kk, vv),), true)
+                && forall|j: TxId| old(self).map().contains_key(j) && *kk < j < old(self).bound() ==> p.ensures((&(&j, &old(self).map()[j]),), false),
+            None => forall|j: TxId| old(self).map().contains_key(j) && j < old(self).bound() ==> p.ensures((&(&j, &old(self).map()[j]),), false) }
+    { unimplemented!() }
+}
+pub open spec fn earliest_in<V>(m: Map<TxId, V>, b: int) -> Option<TxId> {
+    if exists|k: TxId| m.contains_key(k) && k < b {
+        Some(choose|k: TxId| m.contains_key(k) && k < b && forall|j: TxId| m.contains_key(j) && j < b ==> k <= j)
+    } else { None }
 }
 #[verifier::external_body] pub struct MVMemory { p: u8 }
 #[verifier::external_body] #[verifier::reject_recursive_types(V)] pub struct Ref<'a, V> { p: core::marker::PhantomData<&'a V> }
